@@ -122,7 +122,7 @@ structure Frame (α γ : Type) where
   other : Nat
   y : Option (List γ)
 
-/-- width of `feat.values.view(R, -1)`: the last offset, `offset[-1]` -/
+/-- width of the stored embedding matrix `feat.values` (`feat.size(-1)`): the last offset, `offset[-1]` -/
 def Emb.width {α : Type} (e : Emb α) : Nat := e.offset.getD (e.offset.length - 1) 0
 
 def build {β : Type} (n : Nat) (f : Nat → β) : List β := (List.range n).map f
@@ -184,13 +184,12 @@ structure Converted (α γ : Type) where
   catIdx : List Nat
   y : Option (List γ)
 
-/-- `_to_xgboost_input` / `_to_catboost_input` / `_to_lightgbm_input`; `none` = raises:
-    `ValueError` ("The input TensorFrame object is empty") when none of the three stypes is present,
-    and — behaviour of the code as it is — `RuntimeError` from `feat.values.view(feat.size(0), -1)`
-    when an embedding block has zero rows (torch cannot infer `-1` for a tensor of 0 elements). -/
+/-- `_to_xgboost_input` / `_to_catboost_input` / `_to_lightgbm_input`; `none` = `ValueError`
+    ("The input TensorFrame object is empty") when none of the three stypes is present.
+    (`feat.values.view(feat.size(0), feat.size(-1))` is the identity on the 2-D storage, also for
+    zero rows.) -/
 def convert {α γ : Type} (lib : Lib) (f : Frame α γ) : Option (Converted α γ) :=
   let bs := blocks lib f
-  if f.numRows = 0 ∧ f.emb.isSome then none else
   if bs.isEmpty then none else
   some { rows := hcat f.numRows bs, types := featureTypes bs, catIdx := catFeatures 0 bs, y := f.y }
 
